@@ -187,11 +187,17 @@ def main(argv):
         units = [u for u in units if a.only in json.dumps(u)]
         filtered = True
     if a.subrun:
-        units = units[::max(1, a.stride)]
+        always = getattr(mod, "env_always_units", None)
+        keep = units[::max(1, a.stride)]
+        if always is not None:
+            # units a check wants in every environment variant (e.g. the call sites of a listed known finding)
+            keep = keep + [u for u in units if always(u, a.subrun) and u not in keep]
+        units = keep
     supervised = getattr(mod, "SUPERVISED", False)
     if supervised:
         res, crashes = explore.run_supervised(mod, units, a.jobs,
-                                              timeout=getattr(mod, "CASE_TIMEOUT", 20.0))
+                                              timeout=getattr(mod, "CASE_TIMEOUT", 20.0),
+                                              max_crashes=getattr(mod, "MAX_CRASHES", 25))
         for c in crashes:
             key, case, msg = mod.crash_violation(c["unit"], c["idx"], c["status"], c["stderr"])
             res.current_unit = c["unit"]        # so that a crash that needs the unit's call history can be re-run with it
@@ -257,6 +263,7 @@ def main(argv):
 
     findings = load_findings()
     known_lines, viol_lines, flaky = [], [], []
+    known_hits = {}
     history_dep = []
     nk = nv = 0
     for key in sorted(res.violations):
@@ -264,7 +271,7 @@ def main(argv):
         kf = match_known(findings, pid, key)
         if kf is not None:
             nk += 1
-            known_lines.append("KNOWN-FINDING: property=%s %s [%s]" % (pid, kf["what"], key))
+            known_hits.setdefault(kf["key"], [kf, []])[1].append(key)
             continue
         v = lst[0]
         path = write_replay(pid, v, tier, seed)
@@ -305,6 +312,9 @@ def main(argv):
         else:
             flaky.append("FLAKY property=%s key=%s replay=%s (did not fail again in a fresh process)" % (pid, key, path))
 
+    for kf, keys in known_hits.values():
+        known_lines.append("KNOWN-FINDING: property=%s %s [%d finding key(s): %s]" % (
+            pid, kf["what"], len(keys), ", ".join(keys[:30])))
     cov = dict(
         evaluations=res.evaluations,
         distinct_nontrivial=res.nontrivial,
